@@ -109,6 +109,8 @@ pub struct Ev {
     pub ret: i64,
     pub errno: i32,
     pub injected: bool,
+    /// the call really took effect although it was made to report failure (Action::FailAfter)
+    pub effect_done: bool,
     pub sets_atime: bool,
     pub sets_mtime: bool,
     /// true for kernel-behaviour emulation issued by the shim itself.
@@ -134,6 +136,7 @@ impl Ev {
             ret: 0,
             errno: 0,
             injected: false,
+            effect_done: false,
             sets_atime: false,
             sets_mtime: false,
             emulation: false,
@@ -529,7 +532,7 @@ unsafe fn mediate(mut ev: Ev, real: &mut dyn FnMut(&mut Ev, bool) -> i64) -> i64
             -1
         }
         Action::FailAfter(e) => {
-            let _ = real(&mut ev, false);
+            ev.effect_done = real(&mut ev, false) >= 0;
             ev.injected = true;
             set_errno(e);
             -1
